@@ -1,3 +1,4 @@
+import AquaVerif.Proofs.Day
 import AquaVerif.Proofs.Clock
 import AquaVerif.Proofs.Summary
 import AquaVerif.Proofs.Yield
@@ -77,12 +78,12 @@ variable {α : Type} [Field α] [LinearOrder α] [IsStrictOrderedRing α]
 /-- Over the in-season days of a season the seasonal counter reported in the summary row is the
 initial counter plus the sum of the daily irrigation depths — for every strategy and whether or not
 the seasonal cap binds. -/
-theorem season_total_is_sum (F : Fn α) (P : IrrParams α) (ds : List (DayIn α)) (c c' : α)
+theorem season_total_is_sum (F : Fn α) (P : IrrParams α) (ds : List (C13.DayIn α)) (c c' : α)
     (xs : List α) (hg : ∀ d ∈ ds, d.gs = true) (h : run F P c ds = some (c', xs)) :
     c' = c + xs.sum := Aqua.season_total_is_sum F P ds c c' xs hg h
 
 /-- An off-season day applies nothing and resets the seasonal counter to 0. -/
-theorem offseason_day_resets_total (F : Fn α) (P : IrrParams α) (c : α) (d : DayIn α)
+theorem offseason_day_resets_total (F : Fn α) (P : IrrParams α) (c : α) (d : C13.DayIn α)
     (o : IrrOut α) (h : day F P c d = .ok o) (hg : d.gs = false) : o.irr = 0 ∧ o.irrCum = 0 :=
   offseason_day_resets F P c d o h hg
 
@@ -90,7 +91,7 @@ theorem offseason_day_resets_total (F : Fn α) (P : IrrParams α) (c : α) (d : 
 sum of that season's daily depths, whatever it was before (and the sum over the whole history,
 the off-season depths being 0). -/
 theorem season_total_is_sum_after_offseason (F : Fn α) (P : IrrParams α)
-    (off ds : List (DayIn α)) (c c' : α) (xs : List α) (hne : off ≠ [])
+    (off ds : List (C13.DayIn α)) (c c' : α) (xs : List α) (hne : off ≠ [])
     (hoff : ∀ d ∈ off, d.gs = false) (hin : ∀ d ∈ ds, d.gs = true)
     (h : run F P c (off ++ ds) = some (c', xs)) :
     c' = (xs.drop off.length).sum ∧ c' = xs.sum :=
@@ -98,7 +99,7 @@ theorem season_total_is_sum_after_offseason (F : Fn α) (P : IrrParams α)
 
 /-- With the counter reset at the season start (`reset_initial_conditions`: `irr_cum = 0`) the
 seasonal total is exactly the sum of the daily column. -/
-theorem season_total_is_sum_from_reset (F : Fn α) (P : IrrParams α) (ds : List (DayIn α))
+theorem season_total_is_sum_from_reset (F : Fn α) (P : IrrParams α) (ds : List (C13.DayIn α))
     (c' : α) (xs : List α) (hg : ∀ d ∈ ds, d.gs = true) (h : run F P 0 ds = some (c', xs)) :
     c' = xs.sum := by
   have := Aqua.season_total_is_sum F P ds 0 c' xs hg h
@@ -229,4 +230,54 @@ example :
   norm_num [biomassAccumulation, bioWPadj, bioWPadj0, bioFswitch, bioHIt]
 
 end daily
+
+/-! ### the rows the full day emits (`Model/Day.lean`, tied to `solution_single_time_step` by the `full_day` replay) -/
+
+/-- **Full day.** The rows written on a day satisfy the yield identities and the biomass step, and
+the state copies the reported values — no premise. -/
+theorem full_day_yield_identities {α : Type} [Field α] [LinearOrder α] [IsStrictOrderedRing α]
+    {F : Fn α} {T : TrigFn α} {P : DayParams α} {st : DayState' α} {D : DayIn' α} {r : DayResult α}
+    (h : fullDay F T P st D = .ok r) :
+    r.growth.yieldPot = (r.growth.biomassNS / 100) * r.growth.hi ∧
+    (D.gs = true →
+      r.growth.dryYield = (r.growth.biomass / 100) * r.growth.hiAdj ∧
+      r.growth.freshYield = r.growth.dryYield / (P.cx.yldWC / 100) ∧
+      r.growth.biomass = st.biomass +
+        bioWPadj P.cx.bio (natNum r.growth.dap) r.state.delayedCds r.state.hiRef
+          r.state.pctLagPhase * (r.flux.tr / D.et0) ∧
+      r.growth.biomassNS = st.biomassNS +
+        bioWPadj P.cx.bio (natNum r.growth.dap) r.state.delayedCds r.state.hiRef
+          r.state.pctLagPhase * (r.water.trPotNS / D.et0)) ∧
+    (r.state.yieldPot = r.growth.yieldPot ∧ r.state.dryYield = r.growth.dryYield ∧
+      r.state.freshYield = r.growth.freshYield ∧ r.state.biomass = r.growth.biomass ∧
+      r.state.biomassNS = r.growth.biomassNS ∧ r.state.hi = r.growth.hi ∧
+      r.state.hiAdj = r.growth.hiAdj ∧ r.state.cc = r.growth.cc ∧ r.state.ccNS = r.growth.ccNS ∧
+      r.state.zRoot = r.growth.zRoot) := fullDay_yields h
+
+/-- **Full day.** A summary row is written exactly on the first day on which the season's end
+condition holds (the harvest flag was not yet set), and it repeats the daily values of that day:
+dry, fresh and potential yield, the step, and the seasonal irrigation total. -/
+theorem full_day_summary_row_repeats_harvest_day {α : Type} [Field α] [LinearOrder α]
+    [IsStrictOrderedRing α] {F : Fn α} {T : TrigFn α} {P : DayParams α} {st : DayState' α}
+    {D : DayIn' α} {r : DayResult α} (h : fullDay F T P st D = .ok r) :
+    (r.summary.isSome = (r.endc && !st.harvestFlag)) ∧
+    r.state.harvestFlag = (st.harvestFlag || r.endc) ∧
+    r.endc = (decide (0 ≤ D.season) && (r.state.cropMature || r.state.cropDead || D.lastDay)) ∧
+    (∀ s, r.summary = some s → s.season = D.season ∧ s.tsc = D.tsc ∧
+      s.dryYield = r.growth.dryYield ∧ s.freshYield = r.growth.freshYield ∧
+      s.yieldPot = r.growth.yieldPot ∧ s.irrTot = r.irrTot) := fullDay_summary h
+
+/-- **Full day.** The seasonal irrigation total reported is yesterday's counter plus today's
+irrigation column (surface irrigation, or net irrigation incl. pre-irrigation under method 4),
+and zero outside a season — hence, by induction over the days of a season, the sum of the daily
+column. -/
+theorem full_day_seasonal_total_step {α : Type} [Field α] [LinearOrder α] [IsStrictOrderedRing α]
+    {F : Fn α} {T : TrigFn α} {P : DayParams α} {st : DayState' α} {D : DayIn' α} {r : DayResult α}
+    (h : fullDay F T P st D = .ok r) :
+    (D.gs = true → P.W.irr.method ≠ 4 →
+      r.irrTot = r.state.irrCum ∧ r.irrTot = st.irrCum + r.flux.irrDay) ∧
+    (D.gs = true → P.W.irr.method = 4 →
+      r.irrTot = r.state.irrNetCum ∧ r.irrTot = st.irrNetCum + r.flux.irrDay) ∧
+    (D.gs = false → r.irrTot = 0 ∧ r.flux.irrDay = 0) := fullDay_irrTot h
+
 end Aqua.C06
